@@ -11,7 +11,10 @@
 (*   (parameter given), minPts : BOOLEAN, unknownKey : BOOLEAN (a key that *)
 (*   is no parameter of the metrics configuration), nFrameIds : 1..2,      *)
 (*   thr : "ok" | "bad" (metric thresholds normalisable?), n : number of   *)
-(*   target labels]                                                        *)
+(*   target labels, aux : one per-label filter parameter (min_point_numbers*)
+(*   | confidence_threshold | max_matchable_radii | max_x_position) given  *)
+(*   in shape auxShape : "list" | "scalar" | "zero" | "singleton" | "empty"*)
+(*   | "short" ("list" = the shape used by the other dimensions)]          *)
 (***************************************************************************)
 EXTENDS Integers, Sequences, FiniteSets
 
@@ -39,6 +42,8 @@ Accept(c) ==
        /\ (IF c.task \in Tasks3D THEN ExactlyOneRangeKind(c) /\ c.nFrameIds = 1
            ELSE ~((c.x \/ c.y) /\ (c.dmax \/ c.dmin)))
        /\ (c.task = "detection" => c.minPts)
+       \* every per-label filter parameter that is given must be normalisable (scalar / singleton / one value per label)
+       /\ c.auxShape \notin {"empty", "short"}
        /\ ~c.unknownKey
        \* metric thresholds are only read by tasks that compute detection / tracking metrics
        /\ (c.task \in MetricTasks => c.thr = "ok")
